@@ -131,6 +131,12 @@ def concretise(hist, payload=default_payload, skin=None, k0=0):
                 t = t.decode("latin-1")  # raw bytes travel as latin-1 and are re-encoded below
         elif c == "blank":
             t = ""
+        elif c == "sublog":
+            t = f"Submodule {bare_path(f, skin)} 1234567..89abcde:"
+        elif c == "subc":
+            t = f"  > commit subject tokZ{k}Z"
+        elif c in ("subm", "subp"):
+            t = ("-" if c == "subm" else "+") + "Subproject commit " + ("%040x" % (0xabcdef0123456789 * (k + 7)))[:40]
         elif c == "du":
             t = f"diff -ru old/{bare_path(f, skin)} new/{bare_path(g, skin)}"
         elif c == "mmm" and diffu:
@@ -233,6 +239,8 @@ def line_events(hist, texts, intern, tabs=8):
             pre, pay = t[:2], t[2:]
         elif c in ("minus", "plus", "zero", "minus3", "plus3"):
             pre, pay = t[:1], t[1:]
+        elif c in ("subm", "subp"):
+            pre, pay = t[:1], t[len("-Subproject commit "):]
         elif c == "commit":
             pre, pay = "", t
         else:
@@ -281,7 +289,9 @@ def parse_row(row: bytes, intern, skin=None):
                 nm = int(m.group())
             else:
                 np_ = int(m.group())
-    if kset & {"minus", "minusEmph", "minusNon"}:
+    if kinds == ["minus", "plain", "plus"] and sp[1][0] == ".." and len(sp[0][0]) <= 12 and len(sp[2][0]) <= 12:
+        tag = "subshort"   # `<old commit>..<new commit>` of a submodule (handle_submodule_short_line)
+    elif kset & {"minus", "minusEmph", "minusNon"}:
         tag = "minus"
     elif kset & {"plus", "plusEmph", "plusNon"}:
         tag = "plus"
